@@ -30,11 +30,12 @@ def check(ctx):
         ctx.violation("proof obligation for C17 no longer checks",
                       {"broken": [n for n, o, _ in ctx.obligations if not o]}, found_input=False)
     flags = core.MODEL_FLAGS
-    shards, records, problems, model_exe = arity.run_arity(ctx.tier, flags)
+    shards, records, problems, model_exe = arity.run_arity(ctx.tier, flags, ctx.seed)
     for p in problems:
         ctx.violation("harness problem: " + p, {"problem": p}, found_input=False)
     t2_bad = t3_bad = 0
     reported = set()
+    seen_variants, seen_seq = set(), set()
     rng = Rng(ctx.seed)
     for sd, sh, inp, impl, model in records:
         form, s, a, b = inp
@@ -70,11 +71,24 @@ def check(ctx):
         if sh.kind == "choice" and got.startswith("P:ok"):
             i = got[got.index("{ _") + 3:]
             ctx.count("choice_variant=%s" % i[:i.index(":")])
+            if not t3 and not t2:
+                seen_variants.add((sd.name, sh.n, int(i[:i.index(":")])))
+        if sh.kind == "seq" and got.startswith("P:ok") and not t3 and not t2:
+            seen_seq.add((sd.name, sh.n))
         if len(ctx.samples) < 10 and rng.below(max(1, len(records) // 10)) == 0:
             ctx.samples.append({"case": impl[:400], "oracle": want[:200]})
     arity.vm_crosscheck(ctx, records, model_exe, flags, Rng(ctx.seed).fork("vm"), k=12 if ctx.tier == "quick" else 40)
     if any(not o for n, o, _ in ctx.obligations if n.startswith("extraction cross-check")):
         ctx.violation("extraction cross-check (vm_compute vs extracted driver) failed", {"broken": "extraction"}, found_input=False)
+    # coverage of the quantifier: every alternative index of every arity (library and macro instances) was the winner of
+    # some validated case, and every SeqN was parsed successfully
+    want_v = {(sd.name, sh.n, i) for sd in shards for sh in sd.shapes if sh.kind == "choice" and sh.family == "cp" for i in range(sh.n)}
+    want_s = {(sd.name, sh.n) for sd in shards for sh in sd.shapes if sh.kind == "seq"}
+    missing = sorted(want_v - seen_variants) + sorted(want_s - seen_seq)
+    if not (t2_bad or t3_bad):
+        ctx.oblige("coverage: every variant _i of every ChoiceN and every SeqN observed in a validated case", not missing, str(missing[:20]))
+        if missing:
+            ctx.violation("harness coverage lost: no validated case for %s" % (missing[:8],), {"missing": [list(m) for m in missing]}, found_input=False)
     ctx.coverage["t2_mismatches"] = t2_bad
     ctx.coverage["t3_failures"] = t3_bad
     ctx.coverage["traces_validated_against_impl"] = ctx.evaluations - t2_bad - t3_bad
@@ -82,7 +96,7 @@ def check(ctx):
     ctx.coverage["shapes"] = sum(len(sd.shapes) for sd in shards)
     ctx.coverage["match_choices"] = "pest_typed_derive::match_choices! is used directly (outside a derive) with a local `generics` module"
     ctx.rule = ("for every arity n in %s: ChoiceN with overlapping alternatives (cp: \"a\"^(n-j); cr: nested char ranges; cx: Str/Insens "
-                "literals told apart at later positions) and SeqN (same-typed, with implicit skipping, heterogeneous); arity 12 both as "
+                "literals told apart at later positions; rnd: seeded random Str/Insens/CharRange/Seq2 alternatives x all strings over {a,b,A}) and SeqN (same-typed, with implicit skipping, heterogeneous); arity 12 both as "
                 "library type and as macro instance, 13..16 by pest_typed::choices!/seq!; repetitions; every leaf kind x an alphabet with "
                 "1-4 byte chars, all case spellings, CR/LF/CRLF, stack nodes, as &str and as sub-span inputs. Each case: impl line == model "
                 "line (T2) and impl line == independent string-level oracle (T3). non-trivial = choice where >= 2 alternatives match on "
